@@ -6,12 +6,14 @@ C04 — symbolic dimension arithmetic: executable model (core Lean only).
   `(term, coefficient)`, a term a tuple of `(factor, power)`, a factor a variable or one of the
   binary operations `floordiv / mod / max / min` on two expressions.  Every node additionally
   carries the *text keys* under which `LowerDimExpr` memoises it (`str(expr)`,
-  `str((term, coeff))`, `str(term)`, `str((factor, power))`, `f"{op}#{operands}"`, the variable
+  `f"term*coeff:{(term, coeff)}"`, `str(term)`, `f"factor^power:{(factor, power)}"`,
+  `f"{op}#{operands}"`, the variable
   name).  The keys are data: the harness fills them from the live objects, so the model never has
   to re-implement `__str__`.
 * `evalWith` evaluates an expression for a given meaning of the four operations;
-  `evalJax` (Python floor semantics) and `evalO` (ONNX int64 semantics: `Div` truncates) are
-  its two instances.
+  `evalJax` (Python floor semantics) and `evalO` (the meaning of the nodes the lowerer emits,
+  ONNX int64 semantics) are its two instances.  Since /repo 31efd88 a floordiv is emitted as
+  `Div(Sub(a, Mod(a, b)), b)`; `OpKind.onnxOld` keeps the meaning of the earlier single `Div`.
 * `IntProg` is the unfolded tree of the `dimexpr_*` node chain; `IntProg.eval` its ONNX meaning.
 * `lowerExpr` is `LowerDimExpr._lower_expr` without the memo; `lowerExprC` is the same walk with
   the memo (`compute_cache`) threaded through, in the order the Python code reads and writes it.
@@ -34,12 +36,13 @@ mutual
   inductive Factor where
     | var (name : String)
     | op (key : String) (o : OpKind) (a b : Expr)
-  /-- `_DimTerm._factors`: `(factor, power)` pairs in stored order; `kFP = str((factor, power))`. -/
+  /-- `_DimTerm._factors`: `(factor, power)` pairs in stored order; `kFP = f"factor^power:{(factor, power)}"`
+      (before /repo 31efd88: `str((factor, power))`). -/
   inductive Term where
     | one
     | mul (kFP : String) (f : Factor) (p : Nat) (rest : Term)
   /-- `_DimExpr._sorted_terms`: `(term, coeff)` pairs in stored order;
-      `kTC = str((term, coeff))`, `kT = str(term)`. -/
+      `kTC = f"term*coeff:{(term, coeff)}"` (before 31efd88: `str((term, coeff))`), `kT = str(term)`. -/
   inductive Terms where
     | nil
     | cons (kTC kT : String) (t : Term) (c : Int) (rest : Terms)
@@ -55,13 +58,23 @@ def OpKind.jax : OpKind → Int → Int → Int
   | .max, a, b => if a ≤ b then b else a
   | .min, a, b => if a ≤ b then a else b
 
-/-- ONNX int64 meaning of the node `LowerDimExpr._convert_op` emits for the operation:
-    `Div` truncates toward zero, `Mod` (fmod = 0) follows the sign of the divisor. -/
+/-- ONNX int64 meaning of the nodes `LowerDimExpr._convert_op` emits for the operation.
+    Relied upon (and compared with ONNX Runtime on a box every run):
+    * `Div` on integers truncates toward zero            (`Int.tdiv`),
+    * `Mod` with `fmod = 0` (the default the builder emits) on integers has the sign of the
+      DIVISOR, like Python's `%`                          (`Int.fmod`),
+    * `Sub`, `Max`, `Min` are the integer operations.
+    floordiv ↦ `Div(Sub(a, Mod(a, b)), b)`. -/
 def OpKind.onnx : OpKind → Int → Int → Int
-  | .floordiv, a, b => Int.tdiv a b
+  | .floordiv, a, b => Int.tdiv (a - Int.fmod a b) b
   | .mod, a, b => Int.fmod a b
   | .max, a, b => if a ≤ b then b else a
   | .min, a, b => if a ≤ b then a else b
+
+/-- REGRESSION ONLY: the lowering before /repo 31efd88 emitted a single truncating `Div`. -/
+def OpKind.onnxOld : OpKind → Int → Int → Int
+  | .floordiv, a, b => Int.tdiv a b
+  | o, a, b => OpKind.onnx o a b
 
 mutual
   def Factor.evalWith (sem : OpKind → Int → Int → Int) (σ : String → Int) : Factor → Int
@@ -87,6 +100,7 @@ inductive IntProg where
   | const (k : Int)
   | shape (v : String) (axis : Nat)
   | add (a b : IntProg)
+  | sub (a b : IntProg)
   | mul (a b : IntProg)
   | pow (a b : IntProg)
   | div (a b : IntProg)
@@ -100,16 +114,18 @@ def IntProg.eval (shapes : String → Nat → Int) : IntProg → Int
   | .const k => k
   | .shape v ax => shapes v ax
   | .add a b => a.eval shapes + b.eval shapes
+  | .sub a b => a.eval shapes - b.eval shapes
   | .mul a b => a.eval shapes * b.eval shapes
   | .pow a b => a.eval shapes ^ (b.eval shapes).toNat
-  | .div a b => OpKind.onnx .floordiv (a.eval shapes) (b.eval shapes)
+  | .div a b => Int.tdiv (a.eval shapes) (b.eval shapes)
   | .mod a b => OpKind.onnx .mod (a.eval shapes) (b.eval shapes)
   | .max a b => OpKind.onnx .max (a.eval shapes) (b.eval shapes)
   | .min a b => OpKind.onnx .min (a.eval shapes) (b.eval shapes)
 
-/-- `_convert_op`: which node an operation becomes. -/
+/-- `_convert_op`: which nodes an operation becomes (floordiv: `Mod`, `Sub`, `Div`; the first operand
+    value is used twice — in the unfolded tree it appears twice). -/
 def OpKind.node : OpKind → IntProg → IntProg → IntProg
-  | .floordiv => .div
+  | .floordiv => fun a b => .div (.sub a (.mod a b)) b
   | .mod => .mod
   | .max => .max
   | .min => .min
@@ -307,11 +323,91 @@ def OTable.org (t : OTable) : Org := fun n =>
   | some o => (o.v, o.axis)
   | none => ("?", 0)
 
+/-! ### Key consistency checker
+
+Every memoised item (`Den`) is brought to a common shape (`nf`: a tuple of `(term, coeff)`); two
+items may share a key only if their normal forms are the same up to the key annotations
+(`Terms.same`).  `keysConsistent` checks this for all items of a list of expressions against the
+FIRST item carrying each key.  `J2O.Props.C04.cache_transparent` proves that the check implies
+transparency of the memo for every binding; the harness runs it on the keys of every real export. -/
+
+mutual
+  def Factor.same : Factor → Factor → Bool
+    | .var a, .var b => a == b
+    | .op _ o a b, .op _ o' a' b' => o == o' && a.same a' && b.same b'
+    | _, _ => false
+  def Term.same : Term → Term → Bool
+    | .one, .one => true
+    | .mul _ f p r, .mul _ f' p' r' => f.same f' && p == p' && r.same r'
+    | _, _ => false
+  def Terms.same : Terms → Terms → Bool
+    | .nil, .nil => true
+    | .cons _ _ t c r, .cons _ _ t' c' r' => t.same t' && c == c' && r.same r'
+    | _, _ => false
+  def Expr.same : Expr → Expr → Bool
+    | .mk _ a, .mk _ b => a.same b
+end
+
+/-- what a cache entry stands for -/
+inductive Den where
+  | fac (f : Factor)                 -- variable name key, `op#operands` key
+  | fp (f : Factor) (p : Nat)        -- factor^power key
+  | term (t : Term)                  -- str(term) key
+  | tc (t : Term) (c : Int)          -- term*coeff key
+  | expr (e : Expr)                  -- str(expr) key
+
+def Den.eval (sem : OpKind → Int → Int → Int) (σ : String → Int) : Den → Int
+  | .fac f => f.evalWith sem σ
+  | .fp f p => f.evalWith sem σ ^ p
+  | .term t => t.evalWith sem σ
+  | .tc t c => t.evalWith sem σ * c
+  | .expr e => e.evalWith sem σ
+
+def Den.nf : Den → Terms
+  | .fac f => .cons "" "" (.mul "" f 1 .one) 1 .nil
+  | .fp f p => .cons "" "" (.mul "" f p .one) 1 .nil
+  | .term t => .cons "" "" t 1 .nil
+  | .tc t c => .cons "" "" t c .nil
+  | .expr (.mk _ ts) => ts
+
+mutual
+  def Factor.items : Factor → List (String × Den)
+    | .var n => [(n, .fac (.var n))]
+    | .op key o a b => (key, .fac (.op key o a b)) :: (a.items ++ b.items)
+  def Term.items : Term → List (String × Den)
+    | .one => []
+    | .mul kFP f p rest => (kFP, .fp f p) :: (f.items ++ rest.items)
+  def Terms.items : Terms → List (String × Den)
+    | .nil => []
+    | .cons kTC kT t c rest => (kTC, .tc t c) :: (kT, .term t) :: (t.items ++ rest.items)
+  def Expr.items : Expr → List (String × Den)
+    | .mk kE ts => (kE, .expr (.mk kE ts)) :: ts.items
+end
+
+def allItems : List Expr → List (String × Den)
+  | [] => []
+  | e :: es => e.items ++ allItems es
+
+def firstWith (items : List (String × Den)) (k : String) : Option Den :=
+  match items with
+  | [] => none
+  | (k', d) :: r => if k' = k then some d else firstWith r k
+
+def itemsConsistent (items : List (String × Den)) : Bool :=
+  items.all fun it =>
+    match firstWith items it.1 with
+    | some d => d.nf.same it.2.nf
+    | none => false
+
+/-- all expressions lowered through one memo carry consistent keys -/
+def keysConsistent (es : List Expr) : Bool := itemsConsistent (allItems es)
+
 /-! ### Canonical text of a chain (used by the driver) -/
 def IntProg.render : IntProg → String
   | .const k => s!"{k}"
   | .shape v ax => s!"S({v},{ax})"
   | .add a b => s!"Add({a.render},{b.render})"
+  | .sub a b => s!"Sub({a.render},{b.render})"
   | .mul a b => s!"Mul({a.render},{b.render})"
   | .pow a b => s!"Pow({a.render},{b.render})"
   | .div a b => s!"Div({a.render},{b.render})"
